@@ -25,7 +25,7 @@ ASSUMPTIONS = [
     "restricts clause (b) to the checksummed framings)",
 ]
 MUST = ["reassembled_while_another_caller_queued", "reassembled_after_corrupt_answer", "reassembled_rtu", "reassembled_tcp", "reassembled_aa55", "partial_branch", "leftover_cleared", "late_second_piece",
-        "wrong_second_piece_refused", "foreign_datagram_between_fragments", "both_pieces_delayed", "two_objects_fragmented"]
+        "wrong_second_piece_refused", "foreign_datagram_between_fragments", "both_pieces_delayed", "two_objects_fragmented", "other_timeouts"]
 EXHAUSTIVE = {"quick": False, "thorough": True}
 EPS = 1e-6
 KINDS = ["exact", "plus1", "minus1", "corrupt", "other_answer", "other_remainder", "none", "plus1_then_exact", "junk_then_exact"]
@@ -312,6 +312,12 @@ def run_shard(spec):
                     for second_tx in (("now", "remainder") if (kind == "none" or delay > 1) else ("now",)):
                         sc = scenario(f, spec["ka"], T, 2, count, k, kind, delay, second_tx, spec["aa55_len"])
                         run_case(sc, part)
+            if k in (HEADER[f], L - 1) or k % 11 == 0:
+                # a configured timeout other than 1 s: second piece after 0.7 T (T = 3 -> 2.1 s; T = 0.3 -> 0.21 s)
+                for T_ in (3, 0.3):
+                    sc = scenario(f, spec["ka"], T_, 2, count, k, "exact", round(0.7 * T_, 6), "now", spec["aa55_len"])
+                    run_case(sc, part)
+                    part.count("other_timeouts")
             if k in (HEADER[f], HEADER[f] + 2, L - 1) or k % 5 == 0:
                 # both pieces delayed: the wait for the second piece is counted from the arrival of the first
                 for d1, delay in ((0.6, 0.6), (0.9, 0.9), (0.3, 0.8)):
